@@ -86,6 +86,8 @@ def as_iterable(items, how):
     """The documented argument of array() / stack() / concatenate() is an iterable: hand the same items over as a
     list, a tuple, a generator or an iterator."""
     items = list(items)
+    if how == "values":
+        return {i: x for i, x in enumerate(items)}.values()  # re-iterable, but neither a sequence nor an iterator
     return {"list": items, "tuple": tuple(items), "generator": (x for x in items), "iter": iter(items)}[how or "list"]
 
 
@@ -706,7 +708,7 @@ def generate(rng):
             extras = rng.sample(extras_pool, rng.randint(0, 4))
             data = gen_container(rng, kind, n, m, extras, rng.random() < 0.6, rng.random() < 0.5)
             op = {"op": "new", "dst": rng.randrange(nreg), "data": m_to_json(data), "via": rng.choice(["direct", "atoms"]) if "tag" not in extras else "direct",
-                  "as": rng.choice(["list", "list", "tuple", "generator", "iter"])}
+                  "as": rng.choice(["list", "list", "tuple", "generator", "iter", "values"])}
         else:
             a = rng.choice(lv)
             m = ms[a]
@@ -719,7 +721,7 @@ def generate(rng):
                 if faulty and rng.random() < 0.2:
                     srcs.append(rng.choice(lv))
                 op = {"op": "concat", "srcs": srcs, "dst": dst, "plus": len(srcs) == 2 and rng.random() < 0.5,
-                      "as": rng.choice(["list", "list", "tuple", "generator", "iter"])}
+                      "as": rng.choice(["list", "list", "tuple", "generator", "iter", "values"])}
             elif r < 0.51:
                 if m.kind != "array":
                     continue
@@ -729,7 +731,7 @@ def generate(rng):
                       "boxes": [gen_box(rng) if (with_box or rng.random() < 0.2) else None for _ in range(k)],
                       "break_annot": (rng.randrange(k) if (faulty and k > 1 and rng.random() < 0.3) else None),
                       "break_how": rng.choice(["value", "add_cat", "del_cat"]),
-                      "as": rng.choice(["list", "list", "tuple", "generator", "iter"])}
+                      "as": rng.choice(["list", "list", "tuple", "generator", "iter", "values"])}
             elif r < 0.55:
                 k = rng.choice([0, 1, 1, 2, 2, 3])  # the first dimension of coord is the number of repeats; zero is a length too
                 shape = (k, m.n, 3) if m.kind == "array" else (k, m.m, m.n, 3)
@@ -739,7 +741,7 @@ def generate(rng):
                 op = {"op": "from_template", "src": a, "dst": dst, "m": mm, "coord": gen_coord(rng, (mm, m.n, 3)).tolist(),
                       "box": gen_box(rng, mm) if rng.random() < 0.5 else None}
             elif r < 0.61:
-                op = {"op": "rebuild", "src": a, "dst": dst, "as": rng.choice(["list", "list", "tuple", "generator", "iter"])}
+                op = {"op": "rebuild", "src": a, "dst": dst, "as": rng.choice(["list", "list", "tuple", "generator", "iter", "values"])}
             elif r < 0.68:
                 op = {"op": "copy", "src": a, "dst": dst}
             elif r < 0.74:
@@ -1143,8 +1145,7 @@ class Sim:
                     return {op["dst"]: parts[0] + parts[1]}, None
                 # documented argument: any iterable of arrays/stacks, not only a list
                 how = op.get("as", "list")
-                arg = {"list": parts, "tuple": tuple(parts), "generator": (p for p in parts), "iter": iter(parts)}[how]
-                return {op["dst"]: struc.concatenate(arg)}, None
+                return {op["dst"]: struc.concatenate(as_iterable(parts, how))}, None
             return f
         if name == "stack_variants":
             def f():
